@@ -128,6 +128,18 @@ class K1Spec:
                 "step-by-step differential evaluated inside Coq (vm_compute), property oracle evaluated on the implementation in the same runs." % prop)
 
 
+def k1_in_buffer(prop, tier, seed):
+    """Machine.v (the identity-aware model: retained nested handles, in-place merge) against the buffered classes INSIDE
+    buffer_backend(), one object per file, with the buffer entry as the resource and _save_to_buffer calls as the writes;
+    nested per-object contexts are entered and left in between (transparent: no model step)."""
+    spec = K1Spec("C05k1", ["C0", "C1", "harness"], classes=lambda c: hasattr(c, "buffer_backend"))
+    n, steps = (48, 25) if tier == "quick" else (2000, 30)
+    r = spec._k1(prop, seed + 17, n, steps, "K1-in-buffer/C05k1")
+    r["rule"] = ("K1 sessions run inside buffer_backend() on the 8 buffered classes (one object per file, the buffer entry is the "
+                 "resource; nested obj.buffered contexts entered and left between steps); distinct by SHA-1 of the trace")
+    return r
+
+
 def c03_order(prop, tier, seed):
     import k_extra
     return k_extra.run_c03_order(prop, tier, seed)
@@ -383,7 +395,7 @@ CANDIDATES = {
     "C17": K1Spec("C17", ["C17"], extra=[lambda prop, tier, seed: KBufSpec(["C17"], ["C17"])._run("C17", seed, 32 if tier == "quick" else 1500, 40),
                                            lambda prop, tier, seed: KBufSpec(["C17cap"], ["C17"])._run("C17cap", seed + 3, 32 if tier == "quick" else 1500, 40)]),
     "C05": KBufSpec(["C05", "C05cap"], ["C05", "C15-zero", "C15-capacity"], findings=("D19",),
-                    extra=[lambda prop, tier, seed: __import__("kbuf").run_c05_diff(prop, tier, seed),
+                    extra=[k1_in_buffer, lambda prop, tier, seed: __import__("kbuf").run_c05_diff(prop, tier, seed),
                            lambda prop, tier, seed: __import__("kbuf").run_buf_faults(prop, tier, seed)]),
     "C06": KBufSpec(["C06", "C06b"], ["C05", "C06"], findings=("D19",)),
     "C07": KBufSpec(["C07", "C07cap"], ["C07", "C15-zero", "C15-capacity"], grid=True),
